@@ -462,6 +462,9 @@ def run_case(ctx, model, recipe, k, rng, accessors=True, tag="gen"):
     if a == "admm":
         ctx.count("admm.alpha:" + ("==1" if recipe["alpha"] == 1.0 else "!=1"))
         ctx.count(f"admm.solver:{recipe['solver']}")
+        if recipe["solver"] == "matrix":
+            kinds = {("matrix" if c["t"] == "mat" else "diagonal") for c in recipe["C"]}
+            ctx.count("admm.matrix-solver-C_list:" + ("mixed" if len(kinds) > 1 else kinds.pop()))
         ctx.count(f"admm.N:{len(recipe['C'])}")
         ctx.count("admm.f:" + ("none" if recipe["f"] is None else "loss"))
     if a in ("pgm", "apgm"):
@@ -511,7 +514,7 @@ def check_constructors(ctx, model):
                 except ModelErr as e:
                     mod = ("err", e.kind)
                 ctx.count("constructor:admm:" + ("accepted" if impl[0] == "ok" else "rejected-" + str(impl[1])))
-                ctx.case({"config": f"ADMM.__init__ len(g,C,rho)=({ng},{nc},{nrho})"}, ("admm-init", ng, nc, nrho), sample_every=9)
+                ctx.case({"config": f"ADMM.__init__ len(g,C,rho)=({ng},{nc},{nrho})"}, ("admm-init", ng, nc, nrho), sample_every=27)
                 if impl != mod:
                     ctx.disagree("steps.admm.init_checked", {"ng": ng, "nc": nc, "nrho": nrho}, list(impl), list(mod))
 
